@@ -5,7 +5,15 @@
 2. Every matrix of the same space is decoded by the real decoder (beam after each frame) and TLC validates each
    recorded execution against CtcDecoder_Trace: the statement pins the algorithm ("exactly frame-synchronous
    prefix beam search keeping the k best"), so the implementation-shaped module is the acceptance condition.
+3. Histories: consecutive calls that hand the decoder the SAME long-lived array object (edited in place between calls, retried
+   after a caught rejection, after calls with the tolerance switched off / of the greedy decoder) through two long-lived decoder
+   instances; every judged call is a "final_only" trace of CtcDecoder_Trace, judged by TLC for the matrix the array holds at
+   that call (the specification has no state across calls).
 """
+import math
+
+import numpy as np
+
 from .. import ctc_common as C
 
 LEVEL = "model_checking"
@@ -78,6 +86,174 @@ def _lab(cfg):
                                              (" unnorm" if cfg.get("Unnorm") else "") + (" tiny" if cfg.get("tiny") else ""))
 
 
+# ---- histories on long-lived objects ------------------------------------------------------------------------------------------
+# The statement is about EVERY call ("for every ... matrix ...; unnormalised input is rejected rather than decoded"), and the
+# specification has no state across calls: CtcDecoder.Init always starts from the lone empty prefix and binds the matrix as it
+# is when the call is made.  The cases above hand the decoder a fresh array object per call.  A history drives consecutive
+# calls through the SAME long-lived objects instead - the way a caller keeps a line buffer and a decoder around:
+#   * one float64 array per shape, kept for the whole run and edited in place between calls (valid -> unnormalised -> valid ...);
+#   * the same array handed over again unchanged (retry after the ValueError of a rejection was caught), also to a second
+#     long-lived decoder instance (same letters / beam width / selector);
+#   * calls whose result is not judged in between: the beam decoder with max_unnormalization=inf (may decode garbage or raise
+#     half-way), the greedy decoder of the same module.
+# Nothing may come between two calls of a history, so the beams after the earlier frames cannot be observed by prefix decodes:
+# the traces are of the kind "final_only" (see CtcDecoder_Trace: only the returned bag / the rejection is matched, the
+# intermediate Frame steps are TLC's).  Every judged call is one trace, judged for the matrix the array holds at that call.
+_JUDGED = ("beam", "beam2")
+
+
+def _is_normalised(mat, d):
+    return all(sum(r) == d for r in mat)
+
+
+def unit_histories(ctx, cfg):
+    """every unnormalised matrix u of the shape meets, with seeded valid matrices v, w of the same shape:
+    A  decode v; write u in place, decode (must reject); retry unchanged; retry on the second decoder; write w, decode
+    B  write u, lenient call (not judged); decode (must reject); greedy call (not judged); decode again (must reject);
+       write v, greedy call (not judged); write u, decode (must reject); write w, decode"""
+    t_, nc, d = cfg["T"], cfg["NC"], cfg["D"]
+    valid = [m for m in C.all_matrices(t_, nc, d)]
+    out = []
+    for u in C.all_matrices(t_, nc, d, normalised=False):
+        if _is_normalised(u, d):
+            continue
+        v, w = ctx.rng.choice(valid), ctx.rng.choice(valid)
+        out.append([{"call": "beam", "mat": v}, {"call": "beam", "mat": u}, {"call": "beam"}, {"call": "beam2"},
+                    {"call": "beam", "mat": w}])
+        out.append([{"call": "lenient", "mat": u}, {"call": "beam"}, {"call": "greedy"}, {"call": "beam2"},
+                    {"call": "greedy", "mat": v}, {"call": "beam", "mat": u}, {"call": "beam", "mat": w}])
+    return out
+
+
+def sampled_histories(ctx, cfg, n, steps=6):
+    """seeded histories for a shape whose unnormalised matrices cannot be enumerated: valid matrices follow one another in the
+    same array (a stale answer about what the array held before is a mismatch of the bag), about a third of the writes put an
+    unnormalised neighbour (one weight moved up or down by one unit) which must be rejected, also when retried"""
+    rows = C.rows_of(cfg["NC"], cfg["D"])
+    out = []
+    for _ in range(n):
+        h = []
+        for _ in range(steps):
+            m = [list(ctx.rng.choice(rows)) for _ in range(cfg["T"])]
+            r = ctx.rng.random()
+            if r < 0.35:
+                i, c = ctx.rng.randrange(cfg["T"]), ctx.rng.randrange(cfg["NC"] + 1)
+                m[i][c] += 1 if (m[i][c] == 0 or ctx.rng.random() < 0.5) else -1
+            h.append({"call": ctx.rng.choice(["beam", "beam", "beam2"]), "mat": m})
+            if r < 0.35:
+                h.append({"call": ctx.rng.choice(["beam", "beam2", "lenient", "greedy"])})
+                h.append({"call": ctx.rng.choice(["beam", "beam2"])})
+            elif r < 0.5:
+                h.append({"call": ctx.rng.choice(["beam", "beam2"])})      # a valid line decoded twice: same bag
+        out.append(h)
+    return out
+
+
+class _Lived:
+    """the objects that live as long as the run (per shape / decoder configuration)"""
+
+    def __init__(self, cfg):
+        letters = [chr(97 + i) for i in range(cfg["NC"])] + [C.BLANK_SYMBOL]
+        kw = {}
+        sel = C.selector(cfg["selector"], cfg["D"])
+        if sel is not None:
+            kw["relevant_logits_selector"] = sel
+        self.arr = np.zeros((cfg["T"], cfg["NC"] + 1), dtype=float)
+        self.beam = C.CTCPrefixLogRawNumpyDecoder(letters, cfg["K"], **kw)
+        self.beam2 = C.CTCPrefixLogRawNumpyDecoder(letters, cfg["K"], **kw)
+        from pero_ocr.decoding import decoders
+        greedy = getattr(decoders, "GreedyDecoder", None)
+        self.greedy = greedy(letters) if greedy is not None else None
+
+
+def _observe(dec, arr, mat, cfg):
+    t_, d = cfg["T"], cfg["D"]
+    rec = {"mat": [list(r) for r in mat], "frames": [[] for _ in range(t_ - 1)], "outcome": "ok", "best": [], "confset": [],
+           "has_h": False, "hret": [], "support": False, "final_only": True}
+    try:
+        with np.errstate(divide="ignore", invalid="ignore", over="ignore"):
+            boh = dec(arr)
+            rec["frames"].append([{"p": [ord(ch) - 96 for ch in h.transcript], "s": C._milli(math.exp(h.vis_sc) * d ** t_),
+                                   "l": C._milli(1.0)} for h in boh])
+            rec["best"] = [ord(ch) - 96 for ch in boh.best_hyp()]
+            conf = boh.confidence()
+            rec["confset"] = [[ord(ch) - 96 for ch in h.transcript] for h, p in zip(boh, boh.posteriors())
+                              if abs(math.exp(p) - conf) <= 1e-9]
+    except ValueError as ex:
+        rec["outcome"] = "rejected" if "normalized" in str(ex) else "exception:ValueError"
+    except Exception as ex:      # any failure of the real code is part of the observation
+        rec["outcome"] = "exception:" + type(ex).__name__
+    if rec["outcome"] != "ok":
+        rec["frames"] = []
+    return rec
+
+
+def run_history(lived, cfg, steps):
+    """executes the calls of one history back to back on the long-lived objects; returns [(step number, trace)] of the judged calls"""
+    nc, d = cfg["NC"], cfg["D"]
+    out, mat = [], None
+    for j, st in enumerate(steps):
+        if "mat" in st:
+            mat = [list(r) for r in st["mat"]]
+            with np.errstate(divide="ignore"):
+                lived.arr[...] = np.log(np.array([[r[ch] for ch in range(1, nc + 1)] + [r[0]] for r in mat], dtype=float) / d)
+        if st["call"] in _JUDGED:
+            out.append((j, _observe(getattr(lived, st["call"]), lived.arr, mat, cfg)))
+            continue
+        try:                     # a call in between whose own result the check does not judge; it may fail
+            with np.errstate(all="ignore"):
+                if st["call"] == "lenient":
+                    lived.beam(lived.arr, max_unnormalization=float("inf"))
+                elif st["call"] == "greedy" and lived.greedy is not None:
+                    lived.greedy(lived.arr)
+        except Exception:
+            pass
+    return out
+
+
+def check_histories(ctx, cfg, hists, lived=None):
+    cfg = dict(cfg)
+    lived = lived or _Lived(cfg)
+    traces, origin = [], []
+    for n, h in enumerate(hists):
+        for j, tr in run_history(lived, cfg, h):
+            traces.append(tr)
+            origin.append((n, j))
+    consts = C.tla_constants(cfg)
+    acc, rej = ctx.validate("CtcDecoder_Trace", traces, constants=consts, shards=max(1, min(4, len(traces) // 200)),
+                            label="CtcDecoder_Trace histories %s" % _lab(cfg))
+    for tr, (n, j) in zip(traces, origin):
+        ctx.count(1, ("history", _lab(cfg), n, j) if j > 0 else None)
+    if traces:
+        ctx.sample({"config": _lab(cfg), "history": hists[origin[len(traces) // 2][0]], "trace": traces[len(traces) // 2]}, limit=6)
+    if not rej and "history_selftest" not in ctx.notes:
+        good = next((tr for tr in traces if tr["outcome"] == "ok" and tr["frames"][-1]), None)
+        if good is not None:
+            def corrupt(tr):
+                tr["frames"][-1][0]["s"] += 1000
+                return tr
+            ctx.selftest_corrupt("CtcDecoder_Trace", good, corrupt, constants=consts)
+            ctx.notes["history_selftest"] = "final_only trace with one unit of mass added to a hypothesis: rejected"
+    for idx, prog in rej:
+        tr = traces[idx]
+        n, j = origin[idx]
+        normal = _is_normalised(tr["mat"], cfg["D"])
+        if tr["outcome"] == "ok" and not normal:
+            sig, what = "history/decoded-unnormalised", "an unnormalised matrix was decoded instead of rejected"
+        elif tr["outcome"] == "rejected" and normal:
+            sig, what = "history/rejected-normalised", "a row-normalised matrix was rejected"
+        elif tr["outcome"] != "ok":
+            sig, what = "history/outcome", "outcome=%s not allowed by the specification" % tr["outcome"]
+        else:
+            sig, what = "history/final-bag", ("the returned bag is not that of prefix beam search on the matrix the array holds at "
+                                              "this call (transcripts distinct / mass per transcript / best_hyp / confidence)")
+        calls = ["%s%s" % (s["call"], "(written in place)" if "mat" in s else "(array unchanged)") for s in hists[n][:j + 1]]
+        ctx.violation({"kind": "history", "cfg": cfg, "history": hists[n], "before": hists[n - 1] if n else [], "step": j,
+                       "trace": tr, "progress": prog}, sig,
+                      "%s; call %d of a history of consecutive calls on the same array object and long-lived decoders [%s]; "
+                      "config %s, matrix at this call %s" % (what, j + 1, ", ".join(calls), _lab(cfg), tr["mat"]))
+
+
 def run(ctx):
     ctx.rule = ("every row-normalised T x (NC+1) matrix with weights k/D, decoded by the real decoder for each beam width/"
                 "selector config; beam after every frame validated by TLC against CtcDecoder; non-trivial = final beam "
@@ -95,12 +271,27 @@ def run(ctx):
     # normalisation guard: every matrix over 0..2 weights, normalised or not
     un = C.base_cfg(T=2, NC=2 if ctx.tier == "thorough" else 1, D=2, K=2, Unnorm=True)
     check_config(ctx, un)
+    # histories: the same array object edited in place / retried, long-lived decoder instances, unjudged calls in between
+    ctx.assume("histories: at most 8 consecutive calls on one array object and two beam decoder instances per history; every "
+               "unnormalised matrix of the T=2 shape, seeded samples of the T=3 shape (ctx.exhaustive refers to the matrices, "
+               "not to the histories)")
+    check_histories(ctx, un, unit_histories(ctx, un))
+    for cfg, n in ((C.base_cfg(K=2), 60), (C.base_cfg(K=100, selector="all"), 40)) if ctx.tier == "quick" else \
+            ((C.base_cfg(K=2), 400), (C.base_cfg(K=100, selector="all"), 300), (C.base_cfg(K=3, selector="thr1"), 300),
+             (C.base_cfg(T=4, K=2), 300)):
+        check_histories(ctx, cfg, sampled_histories(ctx, cfg, n))
     ctx.notes["explanation"] = ("TLC exhaustive on CtcDecoder per config (invariants %s); every matrix of each config decoded by "
-                                "pero_ocr.decoding.decoders.CTCPrefixLogRawNumpyDecoder and validated by CtcDecoder_Trace" % INVS)
+                                "pero_ocr.decoding.decoders.CTCPrefixLogRawNumpyDecoder and validated by CtcDecoder_Trace; histories of "
+                                "consecutive calls on one array object edited in place / retried after a rejection, two long-lived "
+                                "decoder instances: every judged call validated as a final_only trace" % INVS)
 
 
 def replay(ctx, case):
     cfg = case["cfg"]
+    if case.get("kind") == "history":
+        # the history before it on the same objects (if any), then the history itself; every judged call is judged again
+        check_histories(ctx, cfg, [h for h in (case.get("before"), case["history"]) if h])
+        return
     mats = [tuple(tuple(r) for r in case["trace"]["mat"])]
     traces = C.run_config(cfg, mats)
     judge(ctx, cfg, traces)
